@@ -486,6 +486,7 @@ fn generate_tiny(rng: &mut Rng) -> (HistScenario, String) {
         members_one_line: false,
         banner: None,
         crlf: false,
+        tabs: false,
     };
     let uses = |ty: &str| {
         vec![gen::Member::Method {
@@ -590,7 +591,9 @@ pub fn generate(rng: &mut Rng, prop: Prop, thorough: bool) -> (HistScenario, Str
     rng.shuffle(&mut idx);
     let mut paths: Vec<String> = idx.iter().take(n_paths).map(|i| scenario::path_for(*i)).collect();
     let big = rng.pct(if thorough { 4 } else { 2 });
-    let n_steps = if thorough && rng.pct(25) {
+    let n_steps = if thorough && rng.pct(4) {
+        rng.range(41, 90)
+    } else if thorough && rng.pct(25) {
         rng.range(17, 40)
     } else {
         rng.range(3, 16)
